@@ -128,3 +128,69 @@ theorem ofField_fltMin : @CNum.fltMin α (CNum.ofField α top fmin) = fmin := rf
 theorem ofField_posInf : @CNum.posInf α (CNum.ofField α top fmin) = top := rfl
 end
 end RkVerif
+
+namespace RkVerif
+/-- Parameters of the field instance used for the transform algebra (C06): constants and the
+    transcendental functions, about which each theorem states what it needs as hypotheses. -/
+structure Transc (α : Type) where
+  top : α
+  fmin : α
+  pi : α
+  sqrt : α → α
+  sin : α → α
+  cos : α → α
+  acos : α → α
+
+@[reducible] def CNum.ofFieldT (α : Type) [Field α] [LinearOrder α] [IsStrictOrderedRing α] (E : Transc α) : CNum α where
+  add := (· + ·)
+  sub := (· - ·)
+  mul := (· * ·)
+  div := (· / ·)
+  neg := (- ·)
+  mod a _ := a
+  lt := (· < ·)
+  le := (· ≤ ·)
+  min := Min.min
+  max := Max.max
+  ofNat n := (n : α)
+  ofScientific m s e := (OfScientific.ofScientific m s e : α)
+  ofInt n := (n : α)
+  toInt _ := 0
+  decLt := inferInstance
+  decLe := inferInstance
+  beq a b := decide (a = b)
+  abs a := |a|
+  sqrt := E.sqrt
+  sin := E.sin
+  cos := E.cos
+  tan a := a
+  acos := E.acos
+  asin a := a
+  atan2 a _ := a
+  floor a := a
+  pow a _ := a
+  exp a := a
+  posInf := E.top
+  negInf := -E.top
+  pi := E.pi
+  nan := 0
+  ulp := 0
+  fltMin := E.fmin
+  rcpEst a := 1 / a
+  rsqrtEst a := a
+
+section
+variable {α : Type} [Field α] [LinearOrder α] [IsStrictOrderedRing α] (E : Transc α)
+theorem ofFieldT_ofNat (n : Nat) :
+    (@OfNat.ofNat α n (@instOfNatOfCNum α (CNum.ofFieldT α E) n)) = (n : α) := rfl
+theorem ofFieldT_ofScientific (m : Nat) (s : Bool) (e : Nat) :
+    (@OfScientific.ofScientific α (@instOfScientificOfCNum α (CNum.ofFieldT α E)) m s e) =
+      (OfScientific.ofScientific m s e : α) := rfl
+theorem ofFieldT_abs (x : α) : @CNum.abs α (CNum.ofFieldT α E) x = |x| := rfl
+theorem ofFieldT_sqrt (x : α) : @CNum.sqrt α (CNum.ofFieldT α E) x = E.sqrt x := rfl
+theorem ofFieldT_sin (x : α) : @CNum.sin α (CNum.ofFieldT α E) x = E.sin x := rfl
+theorem ofFieldT_cos (x : α) : @CNum.cos α (CNum.ofFieldT α E) x = E.cos x := rfl
+theorem ofFieldT_acos (x : α) : @CNum.acos α (CNum.ofFieldT α E) x = E.acos x := rfl
+theorem ofFieldT_ofInt (n : Int) : @CNum.ofInt α (CNum.ofFieldT α E) n = (n : α) := rfl
+end
+end RkVerif
